@@ -57,7 +57,8 @@ class World:
         if r.random() < 0.7:
             fam = r.choice(["all", "none", "gateop", "arity", "parity"])
             arg = {"arity": r.choice([1, 2]), "parity": r.choice([0, 1])}.get(fam)
-            sims.append({"kind": "split", "family": fam, "arg": arg, "real_apply": r.random() < 0.5, "seed": r.choice([None, 5])})
+            sims.append({"kind": "split", "family": fam, "arg": arg, "real_apply": r.random() < 0.5, "seed": r.choice([None, 5]),
+                         "inplace": r.random() < 0.3})
         cfg = {"n": n, "sims": sims, "rng_mode": r.choice(["real", "adversarial", "adversarial"]), "rng_policy": r.choice(POLICIES),
                "cache_clear": r.choice([0.0, 0.3, 1.0]), "faults": r.choice(["none", "none", "low"]), "clients": r.randint(1, 2)}
         steps = []
@@ -144,6 +145,10 @@ class World:
                 sims.append(SymbolicSimulator(seed=s["seed"]))
             else:
                 sims.append(SplitSim(s["family"], s["arg"], s["real_apply"], seed=s["seed"]))
+                # a back-end that evolves the buffer it is handed in place (every answer it returns is right); all calls of
+                # this world start from the base class's own default state, never from a caller's array
+                sims[-1].inplace = bool(s.get("inplace"))
+                sims[-1].inplace_ok = True
         rng = SimRNG(cfg["rng_mode"], cfg["rng_policy"], ctx.probes).install()
         ops = [gen.build_pauli(o) for o in cfg.get("ops_pool", [])]
         return {"sims": sims, "rng": rng, "umod": umod, "both_regimes_asym": False, "ops": ops, "alloc": SimAlloc().install()}
